@@ -27,13 +27,12 @@ import (
 const maxKeys = 40
 
 type stats struct {
-	nontrivial   int64
-	litSpecial   int64 // inputs with at least one byte Escape must escape
-	nameSpecial  int64 // inputs with at least one byte EncodeName must write as #xx
-	nameSkipped  int64 // inputs with NUL: name half not applicable
-	bsDigit      int64 // backslash directly followed by an octal digit
-	crlf         int64 // CR directly followed by LF
-	escapedBytes int64 // total length of escaped forms looked at
+	nontrivial  int64
+	litSpecial  int64 // inputs with at least one byte Escape must escape
+	nameSpecial int64 // inputs with at least one byte EncodeName must write as #xx
+	nameSkipped int64 // inputs with NUL: name half not applicable
+	bsDigit     int64 // backslash directly followed by an octal digit
+	crlf        int64 // CR directly followed by LF
 }
 
 func litSpecial(c byte) bool {
@@ -136,12 +135,10 @@ func shrink(b []byte, kind string, check func([]byte) (string, string)) []byte {
 }
 
 type caseRec struct {
-	Input    string `json:"input_hex"`
-	Minimal  string `json:"minimal_hex"`
-	Kind     string `json:"kind"`
-	Detail   string `json:"detail"`
-	Escaped  string `json:"escaped,omitempty"`
-	NameForm string `json:"encoded_name,omitempty"`
+	Input   string `json:"input_hex"`
+	Minimal string `json:"minimal_hex"`
+	Kind    string `json:"kind"`
+	Detail  string `json:"detail"`
 }
 
 func report(t *vk.T, b []byte, kind, detail string, check func([]byte) (string, string)) {
